@@ -119,12 +119,14 @@ def oracle(ctx, ts, mu, kw, ancient, st, out, calls, rp):
                     return
 
 
-def model_item(ts, calls, kw):
-    """inputs of Rescale.rescale_ts_times, from the recorded calls"""
-    cm = [c for c in calls if c[0] == "count_mutations"]
-    if not cm or isinstance(cm[0][2], Exception):
-        return None
-    _liks, medge = cm[0][2]
+def model_item(ts, calls, kw, mu):
+    """inputs of Rescale.rescale_ts_times.  The (mutations, span * mutation_rate) rows and the
+    mutation -> edge map come from count_mutations called HERE (C24 owns that function), with the
+    flag the documentation prescribes, so that the model also covers how rescale_tree_sequence
+    prepares them; the changepoints of each iteration come from the recorded calls (C26)."""
+    import tsdate.rescaling as R
+    liks, medge = R.count_mutations(ts, size_biased=not kw["match_segregating_sites"])
+    liks = [[float(a), float(b) * mu] for a, b in liks]
     tcalls = [c for c in calls if c[0] == "mutational_timescale"]
     cpss = []
     for _nm, args, _res in tcalls:
@@ -132,12 +134,6 @@ def model_item(ts, calls, kw):
         if cps is None:
             return None
         cpss.append(cps)
-    if tcalls:
-        liks = [[float(a), float(b)] for a, b in tcalls[0][1][1]]
-    elif kw["num_iterations"] == 0:
-        liks = [[0.0, 0.0] for _ in range(ts.num_edges)]       # unused without iterations
-    else:
-        return None
     samples = set(ts.samples())
     return {"t": [float(x) for x in ts.nodes_time], "fixed": [u in samples for u in range(ts.num_nodes)],
             "liks": liks, "parent": [int(x) for x in ts.edges_parent], "child": [int(x) for x in ts.edges_child],
@@ -156,7 +152,7 @@ def block(ctx, model_ok, n):
         for k, (ts, mu, kw, ancient, st, out, calls) in enumerate(runs):
             if ancient:
                 continue
-            it = model_item(ts, calls, kw)
+            it = model_item(ts, calls, kw, mu)
             # a run that died in the middle has fewer recorded iterations than the model needs
             complete = len(it["cpss"]) == kw["num_iterations"] if it is not None else False
             if it is not None and (st == "ok" or not complete):
@@ -195,7 +191,7 @@ def block(ctx, model_ok, n):
 
 
 def run(ctx, model_ok=True):
-    block(ctx, model_ok, ctx.n(150, 1200))
+    block(ctx, model_ok, ctx.n(100, 1200))
 
 
 def search(ctx):
